@@ -10,6 +10,9 @@ def main():
     import warnings
 
     warnings.simplefilter("ignore", RuntimeWarning)
+    import logging
+
+    logging.disable(logging.CRITICAL)
     ap = argparse.ArgumentParser()
     ap.add_argument("prop", nargs="?")
     ap.add_argument("--tier", default=os.environ.get("VERIF_TIER", "quick"))
